@@ -231,6 +231,13 @@ theorem bridge_commute_used_by_backtracking (p : PJoin) (cur : UOp) (tcols ccols
    fun c => Bridge.Projection_commute_eq c cur tcols ccols,
    fun tag e => Bridge.Calculation_commute_eq tag e cur tcols ccols⟩
 
+/-- Tie to the source: `PartialJoin._begin_apply` - the function the join theorems above are stated with
+(`p.beginApply t o.pref`) - is, as translated from the current Python source on this run (translator T-f), the model's
+(for every recursion budget of at least two: one level to resolve the common columns, one for the replacement). -/
+theorem bridge_partial_join_begin_apply (fuel : Nat) (p : PJoin) (t : Rel) (pref : Option Engine) :
+    Gen.PartialJoin_begin_apply (fuel+2) p t pref = p.beginApply t pref :=
+  Bridge.PartialJoin_begin_apply_eq fuel p t pref
+
 /-! ### Non-vacuity -/
 
 private def ta : Tag := ⟨"a", true⟩
